@@ -279,7 +279,16 @@ _CP1252 = {128: "\u20ac", 130: "\u201a", 131: "\u0192", 132: "\u201e", 133: "\u2
            152: "\u02dc", 153: "\u2122", 154: "\u0161", 155: "\u203a", 156: "\u0153", 158: "\u017e", 159: "\u0178"}
 
 
-def check_parse(doc, mode, loose):
+def rand_env(rng):
+    """everything the caller may set WITHOUT turning sanitization off: the other per-call options, the other module switches, sanitize_html=True spelled out"""
+    if rng.random() < 0.5:
+        return None
+    return {"kw": rng.choice([{}, {"resolve_relative_uris": False}, {"resolve_relative_uris": True}, {"sanitize_html": True}, {"optimistic_encoding_detection": False},
+                              {"sanitize_html": True, "resolve_relative_uris": False}]),
+            "RESOLVE_RELATIVE_URIS": rng.choice([1, 1, 0]), "OPTIMISTIC_ENCODING_DETECTION": rng.choice([1, 0])}
+
+
+def check_parse(doc, mode, loose, env=None):
     """parse the carrier document; judge every HTML-typed documented field; the piece kind of an offending token is
     recovered by re-recording the sanitizer call whose return value the field carries (spy on sanitize_html)"""
     import unittest.mock as mock
@@ -287,8 +296,10 @@ def check_parse(doc, mode, loose):
     import feedparser.api as api
     import feedparser.mixin as mixin
     import feedparser.parsers.json as pjson
-    w = {"doc": doc, "mode": mode, "loose": loose, "via": "parse"}
+    w = {"doc": doc, "mode": mode, "loose": loose, "via": "parse", "env": env}
     calls = []
+    kw = (env or {}).get("kw", {})
+    saved_flags = (feedparser.RESOLVE_RELATIVE_URIS, feedparser.OPTIMISTIC_ENCODING_DETECTION)
     real = mixin.sanitize_html
 
     def spy(src, encoding, typ):
@@ -299,14 +310,17 @@ def check_parse(doc, mode, loose):
     try:
         if loose:
             api._XML_AVAILABLE = False
+        if env:
+            feedparser.RESOLVE_RELATIVE_URIS, feedparser.OPTIMISTIC_ENCODING_DETECTION = env["RESOLVE_RELATIVE_URIS"], env["OPTIMISTIC_ENCODING_DETECTION"]
         with mock.patch.object(mixin, "sanitize_html", spy), mock.patch.object(pjson, "sanitize_html", spy), warnings.catch_warnings():
             warnings.simplefilter("ignore")
             try:
-                r = feedparser.parse(doc)
+                r = feedparser.parse(doc, **kw)
             except Exception:
                 return []
     finally:
         api._XML_AVAILABLE = saved
+        feedparser.RESOLVE_RELATIVE_URIS, feedparser.OPTIMISTIC_ENCODING_DETECTION = saved_flags
     fs = []
 
     def norm(x):
@@ -372,11 +386,12 @@ def search(ctx, focus=None):
         loose = rng.random() < 0.3
         n += 1
         distinct.add((doc, loose))
-        failures += check_parse(doc, mode, loose)
+        failures += check_parse(doc, mode, loose, rand_env(rng))
     return {"evaluations": n, "distinct_nontrivial": len(distinct), "failures": failures,
             "rule": "tag soup: trees over HTML5 / SVG / MathML vocabularies (allow-listed and not) x attributes (every kind of on* handler, allow-listed, URI, style, "
                     "namespace) x value/quote styles x text/reference/comment/declaration/CDATA/PI children x {well-nested, unclosed, self-closed, mismatched} x "
-                    "damage (truncation, inserted <, <!--, ]]>, quotes, NUL, deleted/moved spans) + dangerous payloads wrapped in every non-element construct (comments, declarations, "
+                    "the caller's other settings (resolve_relative_uris / optimistic_encoding_detection arguments, the module switches RESOLVE_RELATIVE_URIS / OPTIMISTIC_ENCODING_DETECTION, "
+                    "sanitize_html=True spelled out) x damage (truncation, inserted <, <!--, ]]>, quotes, NUL, deleted/moved spans) + dangerous payloads wrapped in every non-element construct (comments, declarations, "
                     "marked sections with each keyword, PIs; terminated / mis-terminated / unterminated, with early terminators) + %d literal attack seeds; direct sanitize_html (both types) and "
                     "via parse() in 9 embeddings (escaped, CDATA, base64, inline XHTML, title/subtitle/rights, JSON content_html) x both back ends; the output is "
                     "tokenized by an independent HTML5 tokenizer on its own and inside 3 surrounding contexts (div, paragraph flow, svg); every start tag / attribute must be on the frozen "
@@ -386,7 +401,7 @@ def search(ctx, focus=None):
 
 def replay(w):
     if w.get("via") == "parse":
-        fs = check_parse(w["doc"], w["mode"], w["loose"])
+        fs = check_parse(w["doc"], w["mode"], w["loose"], w.get("env"))
     else:
         fs = check_direct(w["markup"], w["type"])
     return (bool(fs), fs[0].what if fs else "output tokenizes to allow-listed elements and attributes only")
